@@ -7,7 +7,7 @@ CONSTANTS
   PurgeIds <- C_PurgeIds
   CommitIds <- C_CommitIds
   Users <- C_Users
-  Cfgs <- C_Cfgs
+  Cfgs <- C_CfgsReopen
   MaxCalls = 2
   MaxFlush = 2
   MaxReopen = 2
